@@ -60,6 +60,37 @@ Definition accept_args (d : direction) (w : wargs) : option args :=
            end
   end.
 
+(** TimeBasedConnection's ResolveEdges (pagination.go:766-817), given the EdgeGetter's answers to
+    its range queries in query order (which queries: C16): an error of the getter is returned at
+    once; slices are appended to [edges] as they come (nil = empty); promises are collected and, if
+    there is at least one, joined (api.go join: values in order, the first failed promise in order
+    is the error) by a continuation that appends their slices to the SAME [edges]. *)
+Section TimeConn.
+  Variable E : Type.
+
+  Fixpoint join_edges (proms : list (result (list E))) (acc : list E) : result (list E) :=
+    match proms with
+    | [] => Ok acc
+    | Err e :: _ => Err e
+    | Ok l :: r => join_edges r (acc ++ l)
+    end.
+
+  Fixpoint time_collect (answers : list (result (later (list E)))) (edges : list E) (proms : list (result (list E)))
+    : result (later (list E)) :=
+    match answers with
+    | [] => match proms with
+            | [] => Ok (Sync edges)
+            | _ :: _ => Ok (Promise (join_edges proms edges))
+            end
+    | Err e :: _ => Err e
+    | Ok (Sync l) :: r => time_collect r (edges ++ l) proms
+    | Ok (Promise p) :: r => time_collect r edges (proms ++ [p])
+    end.
+
+  Definition time_resolve_edges (answers : list (result (later (list E)))) : result (later (list E)) :=
+    time_collect answers [] [].
+End TimeConn.
+
 (** defaultConnectionCost (pagination.go:226-235): the connection's resolver costs 1 and hands
     maxCount = [last] if it is an int, else [first], else 0 to the [edges] field, whose cost function
     (pagination.go:436-441) multiplies its sub-selection by it; cursor, pageInfo and its fields cost 0 *)
